@@ -29,6 +29,7 @@ RULE += ' Round 8: merged clusters whose dominant template is exactly zero on a 
 RULE += ' Round 9: the amplitude formula evaluated on the cluster waveform the files determine (where unique); a negative unit factor; clusters_amplitudes after a merge and a split made in place.'
 RULE += ' Round 10: coupling whitening matrices scaled by 4e-9 (off-diagonals far below 1e-8).'
 RULE += ' Round 11: whitening matrices that couple channels in one direction only (several shanks); a template whose first sample is NaN on every channel.'
+RULE += ' Round 12: amplitudes of the lowest id scaled by 1e12; single spikes with amplitude zero or below.'
 EXHAUSTIVE = {'quick': False, 'thorough': False}
 FLOORS = {'quick': {'evaluations': 1400, 'distinct_nontrivial': 800},
           'thorough': {'evaluations': 15000, 'distinct_nontrivial': 8000}}
